@@ -212,10 +212,26 @@ def run_case(case):
                     d2 = rng.choice([x for x in a.disks if x != d])
                     if scen._clear_path(fs, d2, s):
                         fs.rename(d, s, d2, s)
+            # "moves" that are not: same inode and size, other bytes - rewritten in place with a new time-stamp, or (for a
+            # file recorded with a zero sub-second part) a time-stamp inside the same second - optionally renamed as well
+            nrew = 0
+            for (d, s) in rng.sample(originals, min(len(originals), rng.randint(1, 3))):
+                e = fs.entries[d].get(s)
+                if e is None or e[0] != "file" or fs.links_of(d, s):
+                    continue
+                sec, ns = divmod(e[2], 10**9)
+                mt = sec * 10**9 + rng.randint(1, 999_999_999) if (ns == 0 and rng.random() < 0.7) else None
+                fs.write(d, s, gen_decoy(rng, len(e[1]), c0, taken, e[1]), mtime_ns=mt, keep_inode=True)
+                nrew += 1
+                if rng.random() < 0.4:
+                    s2 = b"rewritten-and-moved/" + s.split(b"/")[-1]
+                    if scen._clear_path(fs, d, s2):
+                        fs.rename(d, s, d, s2)
+            res["counters"]["rewritten_in_place"] = res["counters"].get("rewritten_in_place", 0) + nrew
             r = a.cmd("sync", "-E", "-Z", *opts, variant=variant)
             hist.append(("sync", r.rc))
             c = a.load_content()
-            label = "moves, sync rc=%s" % r.rc
+            label = "moves + %d in-place rewrites, sync rc=%s" % (nrew, r.rc)
             if r.rc != 0:
                 V.append(("sync-fails-after-true-moves", "%s %s" % (label, r.err[-200:].decode("latin-1")), rep))
             n = hashes_ok(a, fs, c, V, label, rep)
